@@ -93,6 +93,17 @@ THEOREMS = [
         "query_after_del", "query_after_del_falls_back",
         "get_spelling_irrelevant", "getitem_spelling_irrelevant", "contains_spelling_irrelevant", "getitem_eq_get", "contains_eq_get",
         "get_unknown_name", "transform_of_get_direct", "transform_of_get_reverse", "get_after_set", "get_after_del",
+        # matrix input and the re-extracted quaternion: orientation results up to sign (audit C18-1)
+        "signEq_equivalence", "rotMat_eq_iff", "extract_returns_representative", "ofMat3_signEq", "fromMatrix_signEq",
+        "dotX_ok_iff", "dotX_mismatch_error", "dotX_refines", "invX_signEq", "transformPoseX_poseEq", "transformPoseMatX_poseEq",
+        "X_sign_blind", "transform_eq_matmul_X", "inv_transform_X", "transform_inv_X", "inv_inv_X", "dot_two_steps_X",
+        "transformX_refines", "dictTransformX_refines", "registry_roundtrip_X",
+        "ratSqrt_exact", "extractTrace_contract", "extractTrace_representative",
+        "extractG_ok_iff", "extractG_not_ok", "invX_G_breaks",
+        # chains (C18-3), any case mixture (C18-4), a matrix stored under a foreign key (C18-5)
+        "chain_ok_iff", "chain_ok", "chain_unit",
+        "frameOfArg_case_insensitive", "frameOfArg_any_case", "key_case_irrelevant", "key_any_case",
+        "kTransform_ofList", "kTransform_after_set", "kTransform_after_set_reverse",
     ]
 ]
 TRUSTED = [
